@@ -416,6 +416,15 @@ theorem faithful_refuted_unescaped_string_argument :
     accepts (.anyOf [.startsWith c!"a", .startsWith c!"b"]) (.str c!"a") ≠
       accepts (.startsWith c!"a\" or to start with \"b") (.str c!"a") := by decide
 
+/-- D32 (open finding, outside the universe above: needs an expected dict with a key that is not a `str`): `json.dumps` writes the
+    keys `1`, `None`, `True` as `"1"`, `"null"`, `"true"`, so `equal_to({1: "a"})` reads exactly like `equal_to({"1": "a"})` and
+    accepts other values. -/
+theorem faithful_refuted_dict_key_type :
+    (describeSt false (.equalTo (.dict [.int 1] [.str c!"a"])) Tr.plain).1 =
+      (describeSt false (.equalTo (.dict [.str c!"1"] [.str c!"a"])) Tr.plain).1 ∧
+    accepts (.equalTo (.dict [.int 1] [.str c!"a"])) (.dict [.int 1] [.str c!"a"]) ≠
+      accepts (.equalTo (.dict [.str c!"1"] [.str c!"a"])) (.dict [.int 1] [.str c!"a"]) := by decide
+
 theorem mem_level_not {prev : List M} {m : M} (h : m ∈ prev) : M.not m ∈ level prev := by
   simp only [level, unary, List.mem_append, List.mem_flatMap, List.mem_map, List.mem_cons]
   exact Or.inl (Or.inl (Or.inl (Or.inl (Or.inl (Or.inr ⟨M.not, Or.inl rfl, m, h, rfl⟩)))))
